@@ -12,6 +12,10 @@ INFO = {
    text="Lean 4 theorems, for EVERY Unicode string: jsonDecode('\"' ++ escape s ++ '\"') = s against an RFC 8259 decoder written as the spec, escape output is printable ASCII, inline substitution reassembles to the input and every [[expr]] part carries exactly eval(expr) for an arbitrary evaluator, canonical string literals round-trip for both quote styles, and the documented escape table (decide). Tied to the Rust by differential runs: every Unicode scalar through json::escape_string (exhaustive in thorough), random mixtures, grammar-generated string literals through fend_core::evaluate, inline documents; Python json + an independent reading of the escape rules as search oracles.",
    note="Trusted: Lean kernel + 3 axioms; the RFC 8259 decoder in Model/Json.lean as the meaning of 'valid JSON that decodes to the text' (cross-checked against Python's json on every run); hand-written models tied to the code by correspondence only; evaluation of [[expr]] itself is a parameter.",
    technique="Lean 4 round-trip proofs (escape/decode, scanner invariant) + differential correspondence", ref="7/C18"),
+ "C16": dict(
+   text="Lean 4 theorems for EVERY date of year >= 1 and EVERY offset, against an independent ordinal-day calendar: next = ordinal+1 and stays real, prev(next d)=d, add n days then subtract n days is the identity and moves n ordinals, the weekday formula equals ordinal mod 7 (hence consecutive weekdays across all boundaries), - n months / years lands on the calendar-correct month or reports non-existence, accepted literals are real dates of year 1000..i32::MAX. Tied to the Rust by differential runs through fend_core::evaluate (date chains, literal grammar; every day 1000-9999 in the thorough tier) with Python datetime as independent search oracle.",
+   note="Trusted: Lean kernel + 3 axioms; the ordinal calendar in Model/Date.lean as the meaning of 'proleptic Gregorian' (cross-checked against Python datetime on every run); model tied to the code by correspondence only. Literal completeness (every real date IS accepted) is carried by correspondence + decide examples, soundness is proved. BC dates are outside the property.",
+   technique="Lean 4 refinement proof (date code -> ordinal calendar, omega) + differential correspondence", ref="7/C16"),
 }
 def main():
     hooks = subprocess.check_output("git -C /repo log --format=%H --grep='verif-hooks' --grep='verif hooks' -i", shell=True, text=True).split()
